@@ -78,7 +78,7 @@ def solve_address(ctx, rng, desc, kind, w, prep_args):
 
 
 def run_rows(pid, spec, prefixes, ctxs=CTXS_DEFAULT, regs_fn=None, prep_kw=None, after=None, keyfn=None, itpos_fn=None,
-             solve_addr=0.0):
+             solve_addr=0.0, fixed_fn=None):
     from vf import lockstep, scen, machine as M
     from vf.ref.step import tables
     rng = rng_for(pid, 'rows', spec['seed'], spec['shard'])
@@ -92,11 +92,16 @@ def run_rows(pid, spec, prefixes, ctxs=CTXS_DEFAULT, regs_fn=None, prep_kw=None,
                 continue
             ls.bump('rows_visited')
             for j in range(spec['per_row']):
-                w = lockstep.gen_word(tabs[kind], row, rng)
+                fx = fixed_fn(row, rng) if fixed_fn else None
+                if fixed_fn and fx is None:
+                    break                                  # this row cannot take the pinned operand
+                w = lockstep.gen_word(tabs[kind], row, rng, fixed=fx, tries=8 if fx else 60)
                 if w is None:
                     ls.bump('word_generation_failed')
                     continue
                 yield kind, row, w
+        if fixed_fn:
+            return
         # cross products of the narrow non-register fields (shift types x P/U/W x S x small immediates ...: every value) and
         # corner values of the wide ones, registers from the usual pool: special cases in the execute code keyed on two or
         # three fields at once (imm == 0 with one shift type, msb < lsb, rotation x width, wback with a particular index mode)
@@ -147,6 +152,11 @@ def run_rows(pid, spec, prefixes, ctxs=CTXS_DEFAULT, regs_fn=None, prep_kw=None,
             kw['code'] &= ~3
         if kind == 'arm' and 'sp_low' not in kw and rng.random() < 0.12:
             kw['sp_low'] = rng.randrange(1, 4)                    # ARM state: the SP may hold any value
+        if kind in ('arm', 't32') and rng.random() < 0.08 and (kind == 't32' or (w >> 27) in (0b11101, 0b11110, 0b11111)):
+            # the same NUMBER executed first in the other instruction set on this processor object (decode history)
+            scen.prepare(ctx, rng, 't32' if kind == 'arm' else 'arm', w, mode=mode, itpos='out', ns=ns)
+            scen.step(ctx.cpu)
+            ls.bump('primed_in_other_instruction_set')
         desc = scen.prepare(ctx, rng, kind, w, mode=mode, itpos=itpos, ns=ns, regs=regs, **kw)
         if solve_addr and rng.random() < solve_addr:
             kw2 = dict(kw, mode=mode, itpos=itpos, ns=ns)
@@ -194,6 +204,8 @@ def control_noise(ctx, rng, desc):
         r.scr.aw = rng.randrange(2)
         r.scr.fw = rng.randrange(2)
         r.scr.ea = rng.randrange(2)
+        if rng.random() < 0.4 and not (desc.get('ns') == 1):
+            r.nsacr.value |= 1 << 19              # NSACR.RFR: restricts FIQ mode for Non-secure state only
     if cfg['have_virt_ext']:
         r.hvbar = rng.choice([0, 0x60, 0xFFFFFFE0, 0x5000])
         r.hsctlr.te = rng.randrange(2)
